@@ -3,10 +3,12 @@ import Zrnt.Beacon.State
 # Flat signed beacon block (all five forks) and its Go↔Lean exchange format
 
 One `structure SignedBlock` for phase0 … deneb signed beacon blocks. `fork` names the block *container*;
-parts a fork lacks are `none` / empty. Lean never decodes SSZ: the Go dumper
-`/verif/go/internal/flatblock` prints a real typed `SignedBeaconBlock` into the text below (the two
-files are kept in step; the Go exec side re-dumps the block it decoded from SSZ and refuses the op
-line when the text differs, so the text is a function of the block the real code ran on).
+parts a fork lacks are `none` / empty. Lean never decodes SSZ: the Go package
+`/verif/go/internal/flatblock` prints a real typed `SignedBeaconBlock` into the text below (`Dump`) and
+parses the text back into a typed block (`Parse`); the two files are kept in step. The Go exec side
+runs the real code on `Parse(line)` and refuses the op line (`bad-op`) unless `Dump(Parse(line))` is the
+line's text again, so the text Lean reads is exactly the image of the typed block the real code ran on
+(including the hash-tree-roots, which `Dump` recomputes with the real library).
 
 BLS and SSZ merkleization are not modelled in Lean. Every record that carries a signature therefore
 also carries the **signature-oracle Boolean(s)** computed by the harness with its own code following
